@@ -24,7 +24,7 @@ static LIVE: AtomicU64 = AtomicU64::new(0);
 static PEAK: AtomicU64 = AtomicU64::new(0);
 /// live-byte ceiling: beyond it the allocator refuses (the process aborts with "memory allocation
 /// failed", which the supervisor reports as a dead worker) so that a blow-up cannot take the machine down
-const LIVE_LIMIT: u64 = 3 << 30;
+static LIVE_LIMIT: AtomicU64 = AtomicU64::new(3 << 30);
 
 #[inline]
 fn grow(n: u64) -> bool {
@@ -32,7 +32,7 @@ fn grow(n: u64) -> bool {
     if l > PEAK.load(Relaxed) {
         PEAK.store(l, Relaxed);
     }
-    l <= LIVE_LIMIT
+    l <= LIVE_LIMIT.load(Relaxed)
 }
 
 unsafe impl GlobalAlloc for Counting {
@@ -173,6 +173,12 @@ fn measure(stage: &str, optok: &str, md: Vec<u8>) -> String {
 }
 
 fn run(stage: String, optok: String, md: Vec<u8>, on_main: bool) -> String {
+    // VH_LIVE_LIMIT_MB overrides the 3 GiB live-heap ceiling
+    if let Ok(v) = std::env::var("VH_LIVE_LIMIT_MB") {
+        if let Ok(n) = v.parse::<u64>() {
+            LIVE_LIMIT.store(n << 20, Relaxed);
+        }
+    }
     if on_main {
         return measure(&stage, &optok, md);
     }
@@ -202,6 +208,44 @@ pub fn dispatch(op: &str, a: &[String]) -> Option<String> {
             }
             let on_main = a.len() > 6 && a[6] == "main";
             Some(run(a[0].clone(), a[1].clone(), md, on_main))
+        }
+        // reflinks <opts> <mdhex> -> ok <0/1 per top-level paragraph: its first inline is a Link>
+        "reflinks" => {
+            let o = opts::decode(&a[0]);
+            let md = String::from_utf8(unhex(&a[1])).expect("utf-8");
+            let arena = Arena::new();
+            let root = parse_document(&arena, &md, &o);
+            let mut s = String::from("ok ");
+            for p in root.children() {
+                if let comrak::nodes::NodeValue::Paragraph = p.data.borrow().value {
+                    let is_link = p.first_child().map_or(false, |c| matches!(c.data.borrow().value, comrak::nodes::NodeValue::Link(_)));
+                    s.push(if is_link { '1' } else { '0' });
+                }
+            }
+            Some(s)
+        }
+        // tablerows <opts> <mdhex> -> ok <rows of the first table incl. header> <cells> <cells without children>
+        "tablerows" => {
+            let o = opts::decode(&a[0]);
+            let md = String::from_utf8(unhex(&a[1])).expect("utf-8");
+            let arena = Arena::new();
+            let root = parse_document(&arena, &md, &o);
+            for t in root.children() {
+                if let comrak::nodes::NodeValue::Table(..) = t.data.borrow().value {
+                    let (mut rows, mut cells, mut empty) = (0usize, 0usize, 0usize);
+                    for r in t.children() {
+                        rows += 1;
+                        for c in r.children() {
+                            cells += 1;
+                            if c.first_child().is_none() {
+                                empty += 1;
+                            }
+                        }
+                    }
+                    return Some(format!("ok {} {} {}", rows, cells, empty));
+                }
+            }
+            Some("none".to_string())
         }
         _ => None,
     }
